@@ -35,7 +35,7 @@ var (
 	nonzeroLits = []string{"1", "2", "3", "5", "7", "10", "-1", "-3", "2.5", "0.5", "-0.25", "100", "1.5", "4"}
 	smallK      = []string{"0", "1", "2", "3", "4"}
 	smallI      = []string{"0", "1", "2", "-1", "-2", "3"}
-	strLits     = []string{"abc", "Xy", "", "a b", "A", "10", "abc ", " x", "b", "ab"}
+	strLits     = []string{"abc", "Xy", "", "a b", "A", "10", "abc ", " x", "b", "ab", "x IS NULL", "a LIKE b"}
 	oddStrLits  = []string{"a+b", "x,y", "CASE", "a(b", "it)", "AND", "-", "a=b", "1 + 1", "NULL", "a.b", "END", "x > 1", "%", "_a", "a\"b", "\""}
 	strVals     = []string{"abc", "Xy", "", "a b", "ABC", "abc ", "10", " x", "b", "ab", "a+b", "x,y", "a(b", "A", "a\"b"}
 	cmpOps      = []string{"=", "==", "!=", "<", "<=", ">", ">="}
